@@ -20,6 +20,12 @@ def _hash_sources():
     return h.hexdigest()[:12]
 
 
+ASSUMPTIONS = [
+    "user functions are the harness stubs: their behaviour is a function of the scenario table (ok / error / panic with four kinds of value / cancel; predicates true / false / panic) and their results are printed terms over their arguments",
+    "the correspondence is sampled: seeded generated flows (layered DAGs, shuffled listing order, predicates, FallbackWith, Invoke, instrumentation, bare-identifier arguments named like generated identifiers), every single-failure scenario and random sleeps; the theorems are not sampled",
+    "Go runtime, go/types and gofmt are trusted; generated programs run without the race detector in the quick tier",
+]
+
 OUTCOME_EVENTS = ("TaskSuccess", "TaskError", "TaskErrorRecovered", "TaskPanic", "TaskPanicRecovered")
 
 
@@ -286,4 +292,7 @@ def apply(chk, pid):
         chk.distinct.add(("genexec", i))
     for h in s["hits"].get(pid, [])[:1]:
         chk.violate(h["what"], h["payload"])
+    if pid != "C13" and not (s["cff_ok"] and s["build_ok"]):
+        chk.fail_no_input("correspondence generated-code/FlowSemModel could not run: the generated package was not produced or does not build",
+                          {"correspondence": "generated_flows", "hits": s["hits"].get("C13", [])[:1]})
     return s
